@@ -283,6 +283,17 @@ func c02staleSlotMatrix() []*Program {
 	return out
 }
 
+func init() {
+	// calls in tail position between DIFFERENT instances of one function literal (same code, different captured
+	// variables): chains of handlers, continuation passing, returned and discarded forms
+	c02probes = append(c02probes,
+		"global L\nmk := func(next, tag) {\n  return func(n) {\n    L(tag, n)\n    if n <= 0 {\n      return tag\n    }\n    if next == undefined {\n      return [tag, n]\n    }\n    return next(n - 1)\n  }\n}\nh3 := mk(undefined, 3)\nh2 := mk(h3, 2)\nh1 := mk(h2, 1)\nreturn [h1(5), h1(1), h2(0), h1(0), h2(7)]",
+		"global L\nvar mk\nmk = func(acc) {\n  return func(n) {\n    if n == 0 {\n      return acc\n    }\n    return mk(acc + n)(n - 1)\n  }\n}\nreturn [mk(0)(4), mk(100)(1), mk(7)(0)]",
+		"global L\nout := []\nmk := func(next, tag) {\n  return func(n) {\n    out = append(out, [tag, n])\n    if n <= 0 || next == undefined {\n      return tag\n    }\n    next(n - 1)\n  }\n}\nh2 := mk(undefined, \"b\")\nh1 := mk(h2, \"a\")\nr := [h1(2), h1(0), h2(1)]\nreturn [r, out]",
+		"global L\nfs := []\nfor i := 0; i < 3; i++ {\n  fs = append(fs, func(n, k) {\n    L(i, n)\n    if n == 0 {\n      return i * 10 + k\n    }\n    return fs[(i + 1) % 3](n - 1, k + i)\n  })\n}\nreturn [fs[0](4, 0), fs[2](1, 0), fs[1](0, 0)]",
+	)
+}
+
 func (m c02) Run(c *core.Ctx) {
 	if c.Replay != nil {
 		var w c02wit
